@@ -386,6 +386,11 @@ def k4(ctx):
     # find-on-handle
     b = crate.one("egraph::EGraph", "proven_proven_find_applied_id")
     st = [(bi, s) for bi, si, s in b.statements() if s["k"] == "assign" and mir.place_has_field(s["lhs"], "explain::wrapper::applied_id::ProvenAppliedId", "proof")]
+    # (or the result is built as a fresh struct literal: its `proof` component)
+    for bi, si, s in b.statements():
+        rv = s["rv"] if s["k"] == "assign" else None
+        if rv and rv["k"] == "agg" and str(rv.get("adt", "")).endswith("applied_id::ProvenAppliedId") and "proof" in rv.get("fields", []) and not b.blocks[bi]["cleanup"]:
+            st.append((bi, {"rv": {"k": "use", "op": rv["ops"][rv["fields"].index("proof")]}}))
     ctx.floor("proof stores in proven_proven_find_applied_id", len(st), 1)
     for bi, s in st:
         r = strip_role(b.role_of_rvalue(s["rv"]))
